@@ -531,7 +531,9 @@ def key_of(t, verdict):
     link = t["const"]["link"]
     c = why[0]
     if c == "harness":
-        raise tlc.TLCError("backend and spec disagree about the link itself: %s line %s %s" % (t["id"], line, why))
+        # the conversation between the driver under test and the chip simulator left the model of the link (e.g. the
+        # driver wrote a frame the firmware does not answer): a verdict about the code under test, not a crash
+        return "%s:conversation-diverges-from-the-link-model:%s" % (link, why[1] if len(why) > 1 else "?")
     if link == "usb":
         if c == "wret:zlp-missing":
             return "usb:write:len%maxPacketSize==0:no-ZLP"
